@@ -1,12 +1,15 @@
 import OsacaVerif.Driver.Proto
 import OsacaVerif.Model.ParseA64
 import OsacaVerif.Spec.RenderA64
+import OsacaVerif.Model.A64Domain
 /-
   Driver ops of C10 (AArch64 parser).
     a64parse <line>            canonical token form of `parseLine` (same as harness/a64canon.py)
     a64file <content> <start>  `parseFile`: `n` then per line `<lineNo> <text> <class>`
     a64render <ast> <gaps>     the specification's renderer `Spec.A64.render` (wire format: harness/a64gen.py:ast_wire)
     a64expect <ast> <gaps>     canonical tokens of `Spec.A64.expectLine`
+    a64domain <ast> <gaps>     1 if AST and layout are inside the domain of `Props.C10.a64_roundtrip`
+                               (`Domain.inDomain`), else 0
 -/
 namespace OsacaVerif.Driver.C10
 open OsacaVerif OsacaVerif.Proto OsacaVerif.Text OsacaVerif.ParseA64
@@ -204,6 +207,10 @@ def handle (r : Req) : Option String :=
   | "a64render", args =>
     match dInstr (args.map field) with
     | some ((a, gs), []) => some (enc (Spec.A64.render a gs))
+    | _ => some "bad-ast"
+  | "a64domain", args =>
+    match dInstr (args.map field) with
+    | some ((a, gs), []) => some (boolS (Domain.inDomain a gs))
     | _ => some "bad-ast"
   | "a64expect", args =>
     match dInstr (args.map field) with
